@@ -320,11 +320,22 @@ func TestProp_HonestHistories(t *testing.T) {
 		}
 		dial := func(t *rapid.T, n *hnode, extra ...nodeenrollment.Option) (net.Conn, error, []vkit.AcceptResult) {
 			opts := append([]nodeenrollment.Option(nil), extra...)
-			if rapid.Bool().Draw(t, "extraProtos") {
-				opts = append(opts, nodeenrollment.WithExtraAlpnProtos([]string{"app-proto", "h2"}))
+			// the shape of the client's protocol list varies widely: 0..17 extra protocols
+			// and client state from nothing to several request chunks
+			if k := rapid.SampledFrom([]int{0, 0, 1, 2, 3, 5, 16, 17}).Draw(t, "extraProtos"); k > 0 {
+				var ex []string
+				for i := 0; i < k; i++ {
+					ex = append(ex, fmt.Sprintf("app-proto-%d", i))
+				}
+				opts = append(opts, nodeenrollment.WithExtraAlpnProtos(ex))
 			}
-			if rapid.Bool().Draw(t, "clientState") {
+			switch rapid.SampledFrom([]string{"none", "none", "small", "medium", "large"}).Draw(t, "clientState") {
+			case "small":
 				opts = append(opts, nodeenrollment.WithState(vkit.UniqueStruct(n.name)))
+			case "medium":
+				opts = append(opts, nodeenrollment.WithState(vkit.UniqueStruct(strings.Repeat(n.name, 60))))
+			case "large":
+				opts = append(opts, nodeenrollment.WithState(vkit.UniqueStruct(strings.Repeat(n.name+"-", 200))))
 			}
 			c, err := rig.Dial(n.a, opts...)
 			return c, err, rig.Sync()
